@@ -11,9 +11,10 @@ Hypotheses of the `pwl_calibration_fn` theorems, for ANY functions `sm`, `sg`:
 * `SoftmaxLike sm` — `sm` preserves lengths and returns positive weights summing to one (what the
   exact softmax does; the float32 softmax of |parameters| ≳ 10³ underflows to zeros: finding F-C15-b),
 * `SigmoidLike sg` — `sg` is monotone with values in `[0, 1]`,
-* `ValidPwl cfg n outRow.length` — what `_verify_pwl_calibration` accepts (`verify_ok_valid`) with
-  `keypoint_input_min < keypoint_input_max` (equality is accepted by the code and divides by zero:
-  finding F-C15-d),
+* `ValidPwl cfg n outRow.length` — exactly what `_verify_pwl_calibration` accepts
+  (`C15_T1_verify_gives_valid`: it follows from `verifyPwlFn … = .ok ()`, including
+  `keypoint_input_min < keypoint_input_max` since fix ff5f96e of finding F-C15-d); `C15_T1_call_bounded`
+  states the bound directly for every successful call `pwlFnRow … = .ok ys`,
 * `inRow.length + 1 = n` — `inRow` is the padded logit row the code feeds to the input softmax.
 The proofs go through C14/T2 (`paired_eq`: the function is the `PWLCalibration` layer holding the
 derived keypoints and weights) and C05's theorems about that layer.
@@ -141,11 +142,57 @@ theorem C15_T1_output_param_size (hsm : SoftmaxLike sm) (hv : ValidPwl cfg n out
   rw [keypointsOf_eq]
   simp [Alt.interpWeights, PwlEval.length_cumsumExcl, deltas_length cfg sm inRow hsm, hin]
 
-/-- what `_verify_pwl_calibration` accepts is `ValidPwl` (given a non-degenerate input range) -/
+/-- **the hypotheses follow from the verification**: whatever `_verify_pwl_calibration` accepts is
+`ValidPwl` — in particular `keypoint_input_min < keypoint_input_max` (no zero-length pieces). -/
 theorem C15_T1_verify_gives_valid (inLast : Option Nat) (r3 : Bool) (rows outLast cols : Nat)
-    (h : verifyPwlFn cfg inLast r3 rows outLast cols = .ok ()) (hne : cfg.inMin ≠ cfg.inMax) :
+    (h : verifyPwlFn cfg inLast r3 rows outLast cols = .ok ()) :
     ValidPwl cfg (numKeypoints inLast) outLast :=
-  verify_ok_valid cfg inLast r3 rows outLast cols h hne
+  verify_ok_valid cfg inLast r3 rows outLast cols h
+
+/-- **C15/T1, bounds, whole call.** Every output of every SUCCESSFUL call (all units of one example; the
+parameter rows of a tensor are equally long) lies in `[keypoint_output_min, keypoint_output_max]`: no
+hypothesis beyond what the call itself verified. -/
+theorem C15_T1_call_bounded (hsm : SoftmaxLike sm) (hsg : SigmoidLike sg)
+    (inParams : Option (List (List ℚ))) (r3 : Bool) (outParams : List (List ℚ)) (xs ys : List ℚ)
+    (hin : ∀ rows, inParams = some rows → ∀ r ∈ rows, r.length = (rows.headD []).length)
+    (hout : ∀ r ∈ outParams, r.length = (outParams.headD []).length)
+    (hmo : ∀ v, cfg.missingOutput = some v → cfg.outMin ≤ v ∧ v ≤ cfg.outMax)
+    (h : pwlFnRow cfg sm sg inParams r3 outParams xs = .ok ys) :
+    ∀ y ∈ ys, cfg.outMin ≤ y ∧ y ≤ cfg.outMax := by
+  unfold pwlFnRow at h
+  simp only [bind, Except.bind] at h
+  split at h
+  · cases h
+  · rename_i v hver
+    have hv := verify_ok_valid cfg _ r3 _ _ _ hver
+    split_ifs at h with hc
+    simp only [pure, Except.pure, Except.ok.injEq] at h
+    have hc' : (inputRows cfg inParams).length = cfg.units ∧ (tileUnits cfg.units outParams).length = cfg.units := by
+      constructor <;> by_contra hne <;> exact hc (by simp [hne])
+    intro y hy
+    rw [← h] at hy
+    simp only [List.mem_map, List.mem_range] at hy
+    obtain ⟨u, hu, rfl⟩ := hy
+    have hi_mem : (inputRows cfg inParams).getD u [] ∈ inputRows cfg inParams := by
+      rw [List.getD_eq_getElem?_getD, List.getElem?_eq_getElem (by rw [hc'.1]; exact hu), Option.getD_some]
+      exact List.getElem_mem _
+    have ho_mem : (tileUnits cfg.units outParams).getD u [] ∈ outParams := by
+      apply mem_tileUnits cfg.units
+      rw [List.getD_eq_getElem?_getD, List.getElem?_eq_getElem (by rw [hc'.2]; exact hu), Option.getD_some]
+      exact List.getElem_mem _
+    have hv' : ValidPwl cfg (numKeypoints (inParams.map (fun r => (r.headD []).length)))
+        ((tileUnits cfg.units outParams).getD u []).length := by rw [hout _ ho_mem]; exact hv
+    generalize (inputRows cfg inParams).getD u [] = inRow at hi_mem ⊢
+    apply C15_T1_bounded cfg sm sg inRow _ _ hsm hsg hv' _ hmo
+    cases inParams with
+    | none =>
+      simp only [inputRows, List.mem_replicate] at hi_mem
+      rw [hi_mem.2]; rfl
+    | some rows =>
+      simp only [inputRows, List.mem_map] at hi_mem
+      obtain ⟨r, hr, hr2⟩ := hi_mem
+      rw [← hr2]
+      simp [numKeypoints, hin rows rfl r (mem_tileUnits _ _ _ hr)]
 
 end pwl
 
@@ -162,13 +209,22 @@ theorem C15_T3_none_accepted (cfg : PwlFnCfg) (sm : List ℚ → List ℚ) (sg :
     split_ifs at h with h1 h2 h3 h4 h5 h6 h7 h8 h9 h10
     cases r3 with
     | true =>
-      have h8' : outParams.length = cfg.units := by simpa using h8
+      have h8' : outParams.length = 1 ∨ outParams.length = cfg.units := by
+        simp only [Bool.true_and, decide_eq_true_eq, not_and, not_not] at h8
+        by_cases h1' : outParams.length = 1
+        · exact Or.inl h1'
+        · exact Or.inr (h8 h1')
       unfold tileUnits
       split
       · rename_i r
-        simp at h8'
-        simp [← h8']
-      · exact h8'
+        split_ifs with hgt
+        · simp
+        · simp at h8' ⊢; omega
+      · rename_i hne1
+        rcases h8' with h1' | hu'
+        · match outParams, h1' with
+          | [r], _ => exact absurd rfl (hne1 r)
+        · exact hu'
     | false =>
       have h7' : cfg.units ≤ 1 := by simpa using h7
       have hl := hr2 rfl
@@ -189,32 +245,79 @@ theorem C15_T3_none_accepted (cfg : PwlFnCfg) (sm : List ℚ → List ℚ) (sg :
 example : verifyPwlFn ⟨0, 1, 0, 1, 2, true, true, false, false, some (-1), none⟩ none true 2 2 1 = .ok () := by
   decide +kernel
 
-/-- **Counter-witness for finding F-C15-c**: the documented form `(1, 1, output_param_size)` (one
-parameter row broadcast over `units = 2`) is rejected by `_verify_pwl_calibration`, although the body
-of the function would tile it. -/
-theorem documented_unit_broadcast_rejected (sm : List ℚ → List ℚ) (sg : ℚ → ℚ) :
-    pwlFnRow ⟨0, 1, 0, 1, 2, false, false, false, false, none, none⟩ sm sg (some [[1/2]]) true
-      [[0, 1/4, 1]] [1/2] = .error .valueError := by
-  simp [pwlFnRow, verifyPwlFn, outputParamSize, numKeypoints, b2i, bind, Except.bind]
+/-- **C15/T3, unit broadcast (fixed finding F-C15-c, ab7779b).** The documented form
+`(batch, 1, output_param_size)` — ONE parameter row for all `units > 1` — is accepted exactly when the
+tiled `(batch, units, output_param_size)` tensor is, and returns the same outputs: broadcasting over
+units is tiling, for every configuration, parameter row and input. -/
+theorem C15_T3_unit_broadcast_eq_tiling (cfg : PwlFnCfg) (sm : List ℚ → List ℚ) (sg : ℚ → ℚ)
+    (inParams : Option (List (List ℚ))) (row : List ℚ) (xs : List ℚ) (hu : 1 < cfg.units) :
+    pwlFnRow cfg sm sg inParams true [row] xs
+      = pwlFnRow cfg sm sg inParams true (List.replicate cfg.units row) xs := by
+  have hne : ∀ r, List.replicate cfg.units row ≠ [r] := by
+    intro r e
+    have := congrArg List.length e
+    simp at this; omega
+  have ht : tileUnits cfg.units (List.replicate cfg.units row) = List.replicate cfg.units row := by
+    unfold tileUnits
+    split
+    · rename_i r heq; exact absurd heq (hne r)
+    · rfl
+  have hh : (List.replicate cfg.units row).headD [] = row := by
+    cases hcu : cfg.units with
+    | zero => omega
+    | succ m => simp [List.replicate_succ]
+  have hv : verifyPwlFn cfg (inParams.map (fun r => (r.headD []).length)) true [row].length
+        ([row].headD []).length xs.length
+      = verifyPwlFn cfg (inParams.map (fun r => (r.headD []).length)) true
+        (List.replicate cfg.units row).length ((List.replicate cfg.units row).headD []).length xs.length := by
+    rw [hh]
+    unfold verifyPwlFn
+    have hd : decide ([row].length ≠ 1 ∧ [row].length ≠ cfg.units)
+        = decide ((List.replicate cfg.units row).length ≠ 1 ∧ (List.replicate cfg.units row).length ≠ cfg.units) := by
+      apply decide_eq_decide.mpr
+      simp
+    rw [hd]
+    rfl
+  unfold pwlFnRow
+  rw [hv, ht]
+  simp [tileUnits, hu]
 
-/-- **Counter-witness for finding F-C15-d**: `keypoint_input_min = keypoint_input_max` passes the
-verification, every piece then has length zero (where the real code computes `0/0 = NaN`). -/
-theorem degenerate_input_range_accepted (sm : List ℚ → List ℚ) (inRow : List ℚ) :
-    verifyPwlFn ⟨1, 1, 0, 1, 1, false, false, false, false, none, none⟩ (some 1) true 1 3 1 = .ok () ∧
-      ∀ l ∈ keypointDeltas ⟨1, 1, 0, 1, 1, false, false, false, false, none, none⟩ sm inRow, l = 0 := by
-  refine ⟨by decide +kernel, ?_⟩
-  intro l hl
-  simp only [keypointDeltas, List.mem_map] at hl
-  obtain ⟨w, _, rfl⟩ := hl
-  norm_num
+/-- the form is indeed accepted (non-vacuity): two units, three keypoints, one `(1, 1, 3)` row -/
+example : pwlFnRow ⟨0, 1, 0, 1, 2, false, false, false, false, none, none⟩ (fun l => l.map (fun _ => 1/2))
+    (fun _ => 1/2) (some [[1/2]]) true [[0, 1/4, 1]] [1/2] = .ok [1/2, 1/2] := by decide +kernel
 
+/-- **C15/T3, zero input range (fixed finding F-C15-d, ff5f96e).** `keypoint_input_min ≥
+keypoint_input_max` is rejected up front with a `ValueError`, whatever else is passed: no call reaches
+the division by a zero piece length. -/
+theorem C15_T3_zero_input_range_rejected (cfg : PwlFnCfg) (sm : List ℚ → List ℚ) (sg : ℚ → ℚ)
+    (inParams : Option (List (List ℚ))) (r3 : Bool) (outParams : List (List ℚ)) (xs : List ℚ)
+    (h : cfg.inMax ≤ cfg.inMin) :
+    pwlFnRow cfg sm sg inParams r3 outParams xs = .error .valueError := by
+  unfold pwlFnRow verifyPwlFn
+  simp [h, bind, Except.bind]
+
+/-- **C15/T3, no keypoints (fixed finding F-C15-e, 575725d / 4d4b844).** A `CDF` layer without
+keypoints (or units) and a `cdf_fn` call with `num_functions = 0` are rejected with a `ValueError`
+instead of returning NaN. -/
+theorem C15_T3_zero_keypoints_rejected (a : Activation) (σ : ℚ → ℚ) (red : Reduction) (f U : Nat)
+    (scale : List ℚ) (scaling : Option (List (List (List ℚ)))) (kernel : List (List (List ℚ))) (W : Nat)
+    (x : List ℚ) :
+    layerCall a σ red f U scale kernel 0 W x = .error .valueError ∧
+      (f ≠ 0 → cdfFn a σ red f U scaling kernel 0 W x = .error .valueError) := by
+  constructor
+  · simp [layerCall, bind, Except.bind]
+  · intro hf
+    unfold cdfFn
+    rw [verifyCdf_no_keypoints _ _ _ _ _ hf]
+    rfl
 
 /-! ## T2 — CDF layer and `cdf_fn`: outputs in `[0, 1]`, non-decreasing in every input
 
 `entry out r u` is entry `(r, u)` of the returned tensor (`(input_dim / factor, units)` for `'none'`,
 a single row of `units` entries for `'mean'`). `σ` is ANY monotone function into `[0, 1]` for the
-sigmoid activation; `relu6 / 6` is modelled exactly. A successful return (`= .ok out`) means the
-shape checks passed and there is at least one basis function and one input. -/
+sigmoid activation; `relu6 / 6` is modelled exactly. The only hypothesis about the configuration is a
+successful return (`= .ok out`): the verification of the current tree guarantees at least one basis
+function (`C15_T3_zero_keypoints_rejected`) and matching shapes. -/
 
 /-- **C15/T2, bounds (layer).** Every output of `CDF.call` ('mean' / 'none') lies in `[0, 1]`, for every
 kernel, every input scaling (any sign), every input. -/
@@ -224,14 +327,10 @@ theorem C15_T2_layer_bounded (a : Activation) (σ : ℚ → ℚ) (hσ : SigmoidL
     ∀ row ∈ out, ∀ v ∈ row, 0 ≤ v ∧ v ≤ 1 := by
   apply entries_of_mem
   intro r u
-  unfold layerCall at h
-  cases hver : verifyCdf f x.length U K W kernel.length with
-  | error e => simp [hver, bind, Except.bind] at h
-  | ok _ =>
-    simp only [hver, bind, Except.bind, pure, Except.pure, Except.ok.injEq] at h
-    obtain ⟨hK, hrows, -⟩ := verifyCdf_ok hver
-    rw [← h, layerCdfs_eq]
-    exact reduceStage_bounds red f x.length U W _ (fun i j => cdfEntry_bounds a σ hσ K hK _) hrows r u
+  obtain ⟨hver, -, hout⟩ := layerCall_ok h
+  obtain ⟨hK, hrows, -⟩ := verifyCdf_ok hver
+  rw [hout, layerCdfs_eq]
+  exact reduceStage_bounds red f x.length U W _ (fun i j => cdfEntry_bounds a σ hσ K hK _) hrows r u
 
 /-- **C15/T2, bounds (function).** Every output of `cdf_fn` ('mean' / 'none') lies in `[0, 1]`, for every
 location and scaling parameter tensor (any sign, any broadcast shape, or none). -/
@@ -241,14 +340,10 @@ theorem C15_T2_fn_bounded (a : Activation) (σ : ℚ → ℚ) (hσ : SigmoidLike
     ∀ row ∈ out, ∀ v ∈ row, 0 ≤ v ∧ v ≤ 1 := by
   apply entries_of_mem
   intro r u
-  unfold cdfFn at h
-  cases hver : verifyCdf f x.length U K W loc.length with
-  | error e => simp [hver, bind, Except.bind] at h
-  | ok _ =>
-    simp only [hver, bind, Except.bind, pure, Except.pure, Except.ok.injEq] at h
-    obtain ⟨hK, hrows, -⟩ := verifyCdf_ok hver
-    rw [← h, fnCdfs_eq]
-    exact reduceStage_bounds red f x.length U W _ (fun i j => cdfEntry_bounds a σ hσ K hK _) hrows r u
+  obtain ⟨hver, hout⟩ := cdfFn_ok h
+  obtain ⟨hK, hrows, -⟩ := verifyCdf_ok hver
+  rw [hout, fnCdfs_eq]
+  exact reduceStage_bounds red f x.length U W _ (fun i j => cdfEntry_bounds a σ hσ K hK _) hrows r u
 
 /-- **C15/T2, monotone (layer).** With non-negative input scaling, raising any inputs (`x ≤ x'`
 coordinatewise — in particular ONE input, `C15_T2_layer_monotone_one_input`) does not lower any
@@ -259,18 +354,14 @@ theorem C15_T2_layer_monotone (a : Activation) (σ : ℚ → ℚ) (hσ : Sigmoid
     (h : layerCall a σ red f U scale kernel K W x = .ok out)
     (h' : layerCall a σ red f U scale kernel K W x' = .ok out') (r u : Nat) :
     entry out r u ≤ entry out' r u := by
-  unfold layerCall at h h'
-  rw [← hl] at h'
-  cases hver : verifyCdf f x.length U K W kernel.length with
-  | error e => simp [hver, bind, Except.bind] at h
-  | ok _ =>
-    simp only [hver, bind, Except.bind, pure, Except.pure, Except.ok.injEq] at h h'
-    rw [← h, ← h', layerCdfs_eq, layerCdfs_eq, ← hl]
-    apply reduceStage_mono
-    intro i j _ _
-    apply cdfEntry_mono a σ hσ
-    intro k
-    exact mul_le_mul_of_nonneg_left (by linarith [hle i]) (hs i)
+  obtain ⟨-, -, hout⟩ := layerCall_ok h
+  obtain ⟨-, -, hout'⟩ := layerCall_ok h'
+  rw [hout, hout', layerCdfs_eq, layerCdfs_eq, ← hl]
+  apply reduceStage_mono
+  intro i j _ _
+  apply cdfEntry_mono a σ hσ
+  intro k
+  exact mul_le_mul_of_nonneg_left (by linarith [hle i]) (hs i)
 
 /-- **C15/T2, monotone (function).** The same for `cdf_fn` when every (broadcast) scaling entry is
 non-negative — e.g. after `scaling_exp_transform_multiplier`, or `scaling_parameters=None`. -/
@@ -281,23 +372,19 @@ theorem C15_T2_fn_monotone (a : Activation) (σ : ℚ → ℚ) (hσ : SigmoidLik
     (h : cdfFn a σ red f U scaling loc K W x = .ok out)
     (h' : cdfFn a σ red f U scaling loc K W x' = .ok out') (r u : Nat) :
     entry out r u ≤ entry out' r u := by
-  unfold cdfFn at h h'
-  rw [← hl] at h'
-  cases hver : verifyCdf f x.length U K W loc.length with
-  | error e => simp [hver, bind, Except.bind] at h
-  | ok _ =>
-    simp only [hver, bind, Except.bind, pure, Except.pure, Except.ok.injEq] at h h'
-    rw [← h, ← h', fnCdfs_eq, fnCdfs_eq, ← hl]
-    apply reduceStage_mono
-    intro i j _ _
-    apply cdfEntry_mono a σ hσ
-    intro k
-    unfold fnPre
-    cases hsc : scaling with
-    | none => simp only; linarith [hle i]
-    | some sc =>
-      simp only
-      exact mul_le_mul_of_nonneg_right (by linarith [hle i]) (hs sc hsc i k j)
+  obtain ⟨-, hout⟩ := cdfFn_ok h
+  obtain ⟨-, hout'⟩ := cdfFn_ok h'
+  rw [hout, hout', fnCdfs_eq, fnCdfs_eq, ← hl]
+  apply reduceStage_mono
+  intro i j _ _
+  apply cdfEntry_mono a σ hσ
+  intro k
+  unfold fnPre
+  cases hsc : scaling with
+  | none => simp only; linarith [hle i]
+  | some sc =>
+    simp only
+    exact mul_le_mul_of_nonneg_right (by linarith [hle i]) (hs sc hsc i k j)
 
 /-- **C15/T2, monotone in ONE input.** Raising input `d` alone (any amount, any other inputs). -/
 theorem C15_T2_layer_monotone_one_input (a : Activation) (σ : ℚ → ℚ) (hσ : SigmoidLike σ) (red : Reduction)
